@@ -36,11 +36,16 @@ def configs(tier, seed):
     combos = [("uint8", 1, [64, 64, 64], None), ("uint16", 3, [1, 2, 1024], None), ("float32", 2, [32, 32, 32], 4),
               ("uint64", 1, [128, 64, 1], 0)]
     if tier == "thorough":
-        combos += [("uint32", 4, [2, 2, 2], 11), ("uint8", 1, [1024, 1024, 1024], None), ("uint64", 2, [4, 8, 16], 1)]
+        combos += [("uint32", 4, [2, 2, 2], 11), ("uint8", 1, [1024, 1024, 1024], None), ("uint64", 2, [4, 8, 16], 1),
+                   ("uint16", 1, [1, 1, 1], None), ("float32", 3, [7, 5, 3], None), ("uint8", 2, [64, 64, 64], 20), ("uint32", 1, [3, 1000, 2], 7),
+                   ("uint64", 5, [16, 16, 1], None), ("uint8", 1, [2, 4096, 2], 3)]
     for dt, C, cs, sb in combos:
         out.append(dict(harness="stats", dtype=dt, C=C, cs=cs, shard_bits=sb, scales=2, cost=1))
     # a scale may list several chunk layouts: each one is a full copy of the data
     out.append(dict(harness="stats", dtype="uint16", C=1, cs=[32, 32, 32], cs2=[16, 64, 8], shard_bits=None, scales=2, cost=2))
+    if tier == "thorough":
+        out.append(dict(harness="stats", dtype="uint8", C=3, cs=[8, 8, 8], cs2=[2, 32, 64], shard_bits=None, scales=3, cost=2))
+        out.append(dict(harness="stats", dtype="float32", C=1, cs=[5, 6, 7], cs2=[64, 64, 64], shard_bits=None, scales=1, cost=2))
     return out
 
 
